@@ -1212,6 +1212,10 @@ class Model:
         if intercept_idx != -1:
             common_terms.insert(0, common_terms.pop(intercept_idx))
 
+        # Lower order terms are analysed first, no matter where they are written in the formula.
+        # Otherwise, a margin written after its interaction is found to be completely redundant.
+        common_terms.sort(key=lambda term: len(getattr(term, "components", [])))
+
         for term in common_terms:
             if term.kind == "interaction":
                 components[term.name] = {c.name: c.kind for c in term.components}
